@@ -172,7 +172,8 @@ def gen_topology(rng, malformed=None, big=False):
                 valid=malformed is None)
     # dimensions added later, from a derived stream (the other choices of a seed stay what they were)
     import random as _random
-    extra = _random.Random("c09-extra|%r" % (rng.getstate()[1][:4],))
+    _state = rng.getstate()[1]
+    extra = _random.Random("c09-extra|%r|%r" % (_state[:2], _state[-1]))
     if extra.random() < 0.3:
         # sections preprocessing must leave alone: type-less ones written with ONE token, others with full parameters
         blk = extra.choice(blocks)
@@ -189,6 +190,17 @@ def gen_topology(rng, malformed=None, big=False):
         tkey = extra.choice(types["dihedrals"])[0]
         for mult in range(extra.randint(21, 24)):
             types["dihedrals"].append([list(tkey), ["9", dy(extra), dy(extra), str(mult % 6 + 1)]])
+    # bonded types inside `#ifdef X ... #else ... #endif` (the FLEXIBLE / HEAVY_H construction): the same key in both
+    # branches, other parameters; `#ifndef` as the opening condition as well
+    if extra.random() < 0.12:
+        topo["cond_types"] = True
+    if topo["cond_types"]:
+        topo["cond_kind"] = extra.choice(["ifdef", "ifdef", "ifndef"])
+        topo["else_rows"] = {}
+        for sec, rows in types.items():
+            if rows and extra.random() < 0.6:
+                key, params = rows[0]
+                topo["else_rows"][sec] = [list(key), [params[0]] + [dy(extra) for _ in params[1:]]]
     if malformed == "flag-as-parameter":
         topo["flags"] = topo["flags"] + ["FLG"]
         blk = blocks[0]
@@ -243,9 +255,12 @@ def render(topo, swap=False):
         for idx, (key, params) in enumerate(rows):
             cond = topo["cond_types"] and idx == 0
             if cond:
-                out.append("#ifdef FLEX")
+                out.append("#%s FLEX" % topo.get("cond_kind", "ifdef"))
             out.append(" ".join(key + params))
             if cond:
+                if sec in topo.get("else_rows", {}):
+                    ekey, eparams = topo["else_rows"][sec]
+                    out += ["#else", " ".join(ekey + eparams)]
                 out.append("#endif")
     for blk in topo["blocks"]:
         out += ["[ moleculetype ]", "%s 1" % blk["name"], "[ atoms ]"]
@@ -636,6 +651,30 @@ def judge_combrule(ctx, case, answers):
 
 # ------------------------------------------------------------------------------------------------ one case
 
+def types_written(topo):
+    """the bonded-type tables as the topology text states them: section -> key -> [(parameters, guard)] in file order,
+    guard = [condition, tag] of the enclosing #ifdef/#ifndef/#else branch or None"""
+    kind = topo.get("cond_kind", "ifdef")
+    other = {"ifdef": "ifndef", "ifndef": "ifdef"}[kind]
+    out = {}
+    for sec, rows in topo["types"].items():
+        table = {}
+        for idx, (key, params) in enumerate(rows):
+            cond = topo["cond_types"] and idx == 0
+            table.setdefault(" ".join(key), []).append([list(params), [kind, "FLEX"] if cond else None])
+            if cond and sec in topo.get("else_rows", {}):
+                ekey, eparams = topo["else_rows"][sec]
+                table.setdefault(" ".join(ekey), []).append([list(eparams), [other, "FLEX"]])
+        if table:
+            out[sec] = table
+    return out
+
+
+def types_read(request):
+    return {sec: {" ".join(key): [[list(p), m] for p, m in entries] for key, entries in table} for sec, table in request["types"]
+            if table}
+
+
 def topo_case(topo):
     """run the implementation on one generated topology, build the batch of driver requests"""
     lines = render(topo)
@@ -724,7 +763,7 @@ def topo_case(topo):
         if files is not None:
             tree = run_real_tree(files)
     return dict(topo=topo, request=request, obs=obs, reqs=reqs, plan=plan, paramless=len(paramless), swapped=swapped,
-                tree=tree)
+                tree=tree, types_read=None if topo.get("rename") else types_read(request))
 
 
 def judge_topo(ctx, case, answers):
@@ -790,6 +829,19 @@ def judge_topo(ctx, case, answers):
     if obs["err"] is None and case["swapped"] is not None and case["swapped"] != obs["nb_after"]:
         ctx.oracle_fail("pairs-not-symmetric", "listing the atom types (and nonbond_params pairs) the other way "
                         "round changes the pair table: %s vs %s" % (obs["nb_after"], case["swapped"]), replay)
+    if case.get("types_read") is not None:
+        # "the parameters of the matching bonded type": the type tables preprocessing resolves against are the ones the
+        # topology states — every entry with its parameters and with the guard of the branch it was written in
+        want, got = types_written(topo), case["types_read"]
+        if want != got:
+            bad = [(sec, key) for sec in sorted(set(want) | set(got))
+                   for key in sorted(set(want.get(sec, {})) | set(got.get(sec, {})))
+                   if want.get(sec, {}).get(key) != got.get(sec, {}).get(key)]
+            sec, key = bad[0]
+            ctx.oracle_fail("bonded-type-guard-differs", "bonded type %s %r is written as %s (parameters, guard of the "
+                            "#ifdef/#ifndef/#else branch) but held by the topology as %s"
+                            % (sec, key, want.get(sec, {}).get(key), got.get(sec, {}).get(key)), replay)
+        ctx.tally(type_tables_checked=True, types_with_else=bool(topo.get("else_rows")))
     tree = case.get("tree")
     if tree is not None:
         flat = dict(err=obs["err"]) if obs["err"] is not None else dict(err=None, nb_after=obs["nb_after"],
